@@ -18,6 +18,7 @@ import (
 
 func init() {
 	hx.Register("c12ring", "replay KeyRing_gen records against a real KeyRing", func(a *hx.Args) error {
+		setVocab(a.Seed)
 		return hx.ReplayAll(a, func(i int, raw json.RawMessage) hx.Result {
 			var rec RingRec
 			if err := json.Unmarshal(raw, &rec); err != nil {
@@ -167,6 +168,14 @@ func describeIncomplete(rec *RingRec, i int, obs Obs) string {
 	return parts[0]
 }
 
+// verTag names the room version whose own validity check judged the request (it is the point then).
+func verTag(r Req) string {
+	if r.Ver == "" {
+		return ""
+	}
+	return "/ver=" + r.Ver
+}
+
 func fetchCalls(cs []ObsCall) []ObsCall {
 	var out []ObsCall
 	for _, c := range cs {
@@ -208,13 +217,13 @@ func compareRing(rec *RingRec, obs Obs) hx.Result {
 			}
 			if obs.Results[i] == "ok" {
 				if rec.Must[i] == "fail" {
-					return fail("unsound", describeUnsound(rec, i), fmt.Sprintf("request %d passed although no key obtainable from the database or a fetcher is valid at its timestamp and verifies its signature", i+1))
+					return fail("unsound", describeUnsound(rec, i)+verTag(rec.Requests[i]), fmt.Sprintf("request %d passed although no key obtainable from the database or a fetcher is valid at its timestamp and verifies its signature", i+1))
 				}
 				design("accepted-where-the-staged-design-fails", fmt.Sprintf("request %d: want fail got ok (property leaves it open)", i+1))
 				continue
 			}
 			if rec.Must[i] == "ok" {
-				return fail("incomplete", describeIncomplete(rec, i, obs), fmt.Sprintf("request %d failed although the database or the first fetcher able to answer supplied a key valid at its timestamp that verifies its signature", i+1))
+				return fail("incomplete", describeIncomplete(rec, i, obs)+verTag(rec.Requests[i]), fmt.Sprintf("request %d failed although the database or the first fetcher able to answer supplied a key valid at its timestamp that verifies its signature", i+1))
 			}
 			design("rejected-where-the-staged-design-passes", fmt.Sprintf("request %d: want ok got fail (property leaves it open)", i+1))
 		}
